@@ -49,6 +49,29 @@ def run(ctx):
                 cases.append(('lawrp', [kx, ky], []))
             groups.append({'u': u, 'opts': {}, 'cases': cases, 'revisit': 0})
     run_plan(ctx, groups)
+    # the same operators inside functions compiled by alg.register (TapeRecorder re-implements grade selection, negation,
+    # the involutions, sums and differences), arguments in permuted / padded storage
+    from regstage import run_registered
+    from kdriver import named_ucfg
+    X, Y = ('arg', 1), ('arg', 2)
+    plan = []
+    for u, d in ((ucfg(sig=[1, 1]), 2), (ucfg(sig=[1, 1, 1]), 3), (named_ucfg('2DPGA'), 3), (ucfg(sig=[0, 1, 1, 1]), 4)):
+        gsel = [sorted(rng.sample(range(d + 1), rng.randint(1, d))) for _ in range(3 if q else 8)]
+        one = [('grade', [X], gs, 'method') for gs in gsel] + [('neg', [X], [], 'infix'), ('reverse', [X], [], 'infix'), ('involute', [X], [], 'method'),
+                                                              ('conjugate', [X], [], 'method'), ('sub', [X, ('grade', [X], gsel[0], 'method')], [], 'infix')]
+        two = [('add', [X, Y], [], 'infix'), ('sub', [X, Y], [], 'infix'), ('add', [('grade', [X], gsel[0], 'method'), ('reverse', [Y], [], 'infix')], [], 'infix')]
+
+        def pats(t, d=d, n=1):
+            out = []
+            for _ in range(2 if q else 5):
+                base = [list(P.random_key_tuple(rng, d, 5, 2)) for _ in range(2)]
+                for b_ in base:
+                    rng.shuffle(b_)
+                out.append(base)
+            return out
+        plan.append((u, 1, one, lambda t, f=pats: [[a_[0]] for a_ in f(t)]))
+        plan.append((u, 2, two, pats))
+    run_registered(ctx, plan, 'regc04', 'registered_c04_programs')
     return ctx.finish(
         rule='case = (configuration, options, operator in {add,sub,neg,reverse,involute,conjugate,grade(selection)}, ordered key '
              'tuples) on formal indeterminates; d<=1 all ordered key tuples (pairs), d=2 all canonical subsets (pairs) + sampled '
